@@ -1209,3 +1209,160 @@ M.contract(P_TR + ':MultipleLineRangesTransformer.transform', params=dict(self=M
                implies(1 <= n and n <= N, transform_exact(self, model, result, N, n)),
                'constructed-with-the-parameters-it-requires': lambda model, result: transform_ok(model, result),
            }, raises_only=())
+
+M.contract(P_TR + ':MultipleLineRangesTransformer._model_for_negatives',
+           params=dict(self=MULTI, model=Any_, negatives=RANGES, output_of_non_neg_values=PARTITIONING_RO),
+           inline=True,
+           ensures={'the-contents-are-resolved-later-from-exactly-these': lambda model, negatives, output_of_non_neg_values,
+                                                                               result:
+           resolver_of(result, model) is not None and resolver_of(result, model)._source is model
+           and resolver_of(result, model)._negatives is negatives
+           and resolver_of(result, model)._partial_partitioning is output_of_non_neg_values},
+           raises_only=())
+
+# (4) one range -> SingleLineRangeTransformer, otherwise MultipleLineRangesTransformer
+from exactly_lib.impls.types.string_transformer.impl.filter.line_nums import resolvers  # noqa: E402
+from exactly_lib.test_case.app_env import ApplicationEnvironment  # noqa: E402
+
+
+class AppEnvI(Interface):
+    target_class = ApplicationEnvironment
+    attrs = {'mem_buff_size': Int}
+
+
+M.contract('exactly_lib.impls.types.string_transformer.impl.filter.line_nums.resolvers:_LineNumRangeTransformerAdv.primitive',
+           params=dict(self=Inst(resolvers._LineNumRangeTransformerAdv, _name=Any_, _structure_renderer=Any_,
+                                 _ranges=ListOf(Iface(RangeI), min_len=1)),   # the syntax demands at least one range
+                       environment=Iface(AppEnvI)),
+           ensures={'the-transformer-of-the-given-ranges': lambda self, result:
+           (isinstance(result, transformers.SingleLineRangeTransformer) and result._range is self._ranges[0])
+           if len(self._ranges) == 1 else
+           (isinstance(result, transformers.MultipleLineRangesTransformer) and result._ranges is self._ranges)},
+           raises_only=())
+
+# ------------------------------------------------------------------------------ bounded stand-ins
+# (a) `_RangeParser.parse` (resolvers.py): the written expression -> the range object.  Not within reach of the
+#     proof engine (str.strip() of Unicode white space, str.split on every separator, eval of the integers).
+# (b) end to end: the real transformers on a real string source, through all the string-source plumbing that
+#     is not under contract (StringSourceWithCachedFrozen, DelegatedStringSourceContentsWithInit, as_lines of
+#     TransformedContentsViaAsLinesBase), against the definition of S.  This duplicates, for small sizes, what
+#     the contracts above prove for all sizes; it is here for the glue between the proved pieces.
+import itertools  # noqa: E402
+from exactly_lib.impls.exception.validation_error_exception import ValidationErrorException  # noqa: E402
+
+
+def _py_line_no(k, N):
+    return k if k >= 0 else N + 1 + k
+
+
+def _py_S(form, N, n):
+    """independent executable definition of S, from the manual; form = (kind, a, b)"""
+    kind, a, b = form
+    if not (1 <= n <= N):
+        return False
+    if kind == K_SINGLE:
+        return n == _py_line_no(a, N)
+    if kind == K_LOWER:
+        return _py_line_no(a, N) <= n
+    if kind == K_UPPER:
+        return n <= _py_line_no(a, N)
+    return _py_line_no(a, N) <= n <= _py_line_no(b, N)
+
+
+def _real_range(form):
+    kind, a, b = form
+    return [SingleLineRange(a), LowerLimitRange(a), UpperLimitRange(a), LowerAndUpperLimitRange(a, b)][kind]
+
+
+def _written(form):
+    kind, a, b = form
+    return ['%d' % a, '%d:' % a, ':%d' % a, '%d:%d' % (a, b)][kind]
+
+
+@M.bounded('range-parser')
+def _bounded_parser(ctx):
+    bound = 12 if ctx.tier == 'thorough' else 6
+    failures = []
+    cases = 0
+    forms = [(k, a, 0) for k in (K_SINGLE, K_LOWER, K_UPPER) for a in range(-bound, bound + 1)] \
+        + [(K_LOWER_UPPER, a, b) for a in range(-bound, bound + 1) for b in range(-bound, bound + 1)]
+    for form in forms:
+        for pad_l, pad_r in (('', ''), (' ', ''), ('', '\t'), ('  ', ' ')):
+            cases += 1
+            text = pad_l + _written(form) + pad_r
+            try:
+                r = resolvers._RangeParser(text).parse()
+                ok = (kind_of(r), fst(r), snd(r) if form[0] == K_LOWER_UPPER else 0) == form
+                actual = (type(r).__name__, fst(r), snd(r))
+            except Exception as e:       # noqa
+                ok, actual = False, repr(e)
+            if not ok:
+                failures.append({'input': text, 'expected': form, 'actual': actual})
+    for text in ('', ' ', '1:2:3', ':', '::', 'x', '1:x'):
+        cases += 1
+        try:
+            r = resolvers._RangeParser(text).parse()
+            failures.append({'input': text, 'expected': 'ValidationErrorException', 'actual': type(r).__name__})
+        except ValidationErrorException:
+            pass
+        except Exception as e:       # noqa
+            failures.append({'input': text, 'expected': 'ValidationErrorException', 'actual': repr(e)})
+    ctx.bounded_result('resolvers._RangeParser.parse', 'the four forms with integers in [-%d, %d], with and without '
+                       'surrounding white space; 7 malformed expressions' % (bound, bound), cases, False, failures,
+                       note='against the four forms of the manual (INT, INT:, :INT, INT:INT)')
+
+
+_E2E_REPLAY = '''\
+from exactly_lib.impls.types.string_source import constant_str
+from exactly_lib.impls.types.string_transformer.impl.filter.line_nums import transformers
+from exactly_lib.impls.types.string_transformer.impl.filter.line_nums.range_expr import (
+    SingleLineRange, LowerLimitRange, UpperLimitRange, LowerAndUpperLimitRange)
+forms, N, expected = %r, %r, %r     # (kind, a, b): 0 = a, 1 = a:, 2 = :a, 3 = a:b
+rs = [[SingleLineRange(a), LowerLimitRange(a), UpperLimitRange(a), LowerAndUpperLimitRange(a, b)][k]
+      for (k, a, b) in forms]
+text = ''.join('line %%d\\n' %% i for i in range(1, N + 1))
+t = (transformers.SingleLineRangeTransformer('filter', lambda: None, rs[0], 1000) if len(rs) == 1
+     else transformers.MultipleLineRangesTransformer('filter', lambda: None, rs, 1000))
+with t.transform(constant_str.string_source(text, None)).contents().as_lines as lines:
+    got = list(lines)
+print('ranges', forms, 'lines', N, 'expected', expected, 'got', got)
+sys.exit(1 if got != expected else 0)
+'''
+
+
+@M.bounded('end-to-end')
+def _bounded_end_to_end(ctx):
+    from exactly_lib.impls.types.string_source import constant_str
+    max_lines, bound = (6, 8) if ctx.tier == 'thorough' else (4, 5)
+    forms = [(k, a, 0) for k in (K_SINGLE, K_LOWER, K_UPPER) for a in range(-bound, bound + 1)] \
+        + [(K_LOWER_UPPER, a, b) for a in range(-bound, bound + 1) for b in range(-bound, bound + 1)]
+    failures = []
+    cases = 0
+
+    def run(fs, N):
+        text = ''.join('line %d\n' % i for i in range(1, N + 1))
+        source = constant_str.string_source(text, None)
+        rs = [_real_range(f) for f in fs]
+        t = (transformers.SingleLineRangeTransformer('filter', lambda: None, rs[0], 1000) if len(rs) == 1
+             else transformers.MultipleLineRangesTransformer('filter', lambda: None, rs, 1000))
+        with t.transform(source).contents().as_lines as lines:
+            got = list(lines)
+        expected = ['line %d\n' % n for n in range(1, N + 1) if any(_py_S(f, N, n) for f in fs)]
+        if got != expected:
+            failures.append({'input': {'ranges': [_written(f) for f in fs], 'lines': N},
+                             'expected': expected, 'actual': got, 'replay': _E2E_REPLAY % (list(fs), N, expected)})
+
+    for N in range(0, max_lines + 1):
+        for f in forms:
+            cases += 1
+            run([f], N)
+        step = 1 if ctx.tier == 'thorough' else 3     # quick: every third pair
+        for i, (f1, f2) in enumerate(itertools.product(forms, forms)):
+            if i % step == 0:
+                cases += 1
+                run([f1, f2], N)
+    ctx.bounded_result('SingleLineRangeTransformer.transform / MultipleLineRangesTransformer.transform on a real '
+                       'string source, read through contents().as_lines',
+                       'texts of 0..%d lines; one range, and pairs of ranges, of the four forms with integers in '
+                       '[-%d, %d]' % (max_lines, bound, bound), cases, False, failures,
+                       note='against S(range, N) as defined in the manual')
